@@ -22,7 +22,7 @@ BOUNDS = {
     'quick': 'N = 5 symbolic samples (6 for the classic sift); every listed entry point is called on the layouts its contract accepts (results must be '
              'identical terms) and rejects (an exception is required), with read-only input arrays and option dictionaries compared before/after, '
              'and called twice (identical results)',
-    'thorough': 'N = 6 for all sift routines, more option dictionaries, 2 ensemble members',
+    'thorough': 'N = 7 for sift, get_next_imf, get_next_imf_mask, envelope, extrema, frequency and cycle-vector entry points, N = 6 for the other sift variants, N = 4 for the spectra and phase binning',
 }
 OUTSIDE = 'frequency_transform (FFT-based, not encodable - C09); byte-level comparison is replaced by term-for-term comparison in symbolic runs and ' \
           'by exact array comparison in replays; ensembles use a seeded noise stream re-seeded before each call'
@@ -45,9 +45,11 @@ def configs(tier):
     for e in ENTRY:
         n = 6 if (e == 'sift' or tier != 'quick') and e not in ('hht', 'holo', 'phase_align', 'bin_by_phase', 'cycle_stat', 'normalise') else 5
         if e in ('hht', 'holo', 'bin_by_phase'):
-            n = 3
+            n = 3 if tier == 'quick' else 4
         if e in ('phase_align', 'normalise'):
             n = 5
+        if tier != 'quick' and e in ('sift', 'get_next_imf', 'envelope', 'extrema', 'freq', 'cycle_vector', 'wrap', 'get_next_imf_mask'):
+            n = 7
         if e == 'equal_dims':
             # the shared shape validator with *symbolic* shapes: 2-3 arrays of 1-2 dimensions, every extent in 1..4
             for narr, nd, dim in ((2, 1, None), (2, 2, None), (3, 1, None), (3, 1, 0), (2, 2, 0), (3, 2, None)):
